@@ -8,6 +8,7 @@ import DriverLib.Basic
 import DriverLib.C01
 import DriverLib.C04
 import DriverLib.C03
+import DriverLib.C06
 import DriverLib.C19
 open Lean Drv
 
@@ -15,6 +16,7 @@ def handlers : List (String → Json → Option (R Json)) := [
   Drv.C01.handle,
   Drv.C04.handle,
   Drv.C03.handle,
+  Drv.C06.handle,
   Drv.C19.handle,
   fun _ _ => none]
 
